@@ -172,6 +172,10 @@ class QueryHandler:
                 raise ValueError("Parse error: Missing closing curly bracket")
         else:
             next_token = self._get_next_token()
+            if next_token and (next_token.kind in (Token.LogicalGroupEnd, Token.DescendantGroupEnd, Token.ExactMatchEnd)
+                               or next_token.text in ("[[", "]]")):
+                # A closing symbol where a term is expected: the grouping symbols are unbalanced.
+                raise ValueError(f"Parse error: Unmatched '{next_token.text}'")
             if next_token and next_token.kind == Token.Wildcard:
                 expr = ExpressionWildcardNew(next_token)
             elif next_token:
